@@ -7,7 +7,7 @@ unit dir layout:
 
 template directives (one per line, at column 0):
     //@ source <alias> <path relative to the repository root>
-    //@ item <alias> <kind> <name> [strip_attrs] [pub_fields]
+    //@ item <alias> <kind> <name> [strip_attrs] [pub_fields] [only=<fn>,<fn>]   (only=: R14, other fns of the impl dropped)
     //@ expand <alias> <macro name>          expand every top-level invocation of a ($t:ty) macro (R6)
 vspec entries:
     @@ stripmacro <alias> <macro>                      R1
@@ -212,6 +212,14 @@ class Unit:
                         rsx.strip_attrs(src, ed, p[2])
                     if "pub_fields" in p[3]:
                         rsx.pub_fields(src, ed, p[2])
+                    for fl in p[3]:
+                        if fl.startswith("only="):
+                            keep = set(fl[5:].split(","))
+                            for sub in getattr(p[2], "inner", []):
+                                if sub.kind == "fn" and sub.name not in keep:
+                                    ed.replace(sub.start, sub.end, "", "R14",
+                                               "function of an extracted impl that is not under contract: dropped from the unit")
+                            p[2].inner = [sub for sub in p[2].inner if not (sub.kind == "fn" and sub.name not in keep)]
             top, fns, conts = self.index[alias]
             self._inject_into(alias, src, ed, top, fns, its)
         # render
